@@ -307,6 +307,12 @@ def circuit_layer(scan, max_width, gateset="all", symbolic=False):
         if adj_b:
             opts += ["match"]
         opts += ["scalar"]
+        if gateset == "tk":
+            opts = [o for o in opts if o not in ("mixed", "encode")]
+            if qs:
+                opts += ["one", "rot", "one"]
+            if adj_q:
+                opts += ["two", "two", "rot2", "controlled", "two"]
         if gateset == "pure":
             opts = [o for o in opts if o in (
                 "one", "rot", "bra", "two", "rot2", "controlled", "swap",
@@ -319,16 +325,20 @@ def circuit_layer(scan, max_width, gateset="all", symbolic=False):
                 b["dag"] = True
             return b, draw(st.sampled_from(qs))
         if kind == "rot":
-            return {"k": "g", "g": draw(st.sampled_from(ROT1)),
+            return {"k": "g", "g": draw(st.sampled_from(
+                ["Rx", "Rz"] if gateset == "tk" else ROT1)),
                     "a": [draw(_phases())]}, draw(st.sampled_from(qs))
         if kind == "two":
             return {"k": "g", "g": draw(st.sampled_from(TWO_QUBIT))},\
                 draw(st.sampled_from(adj_q))
         if kind == "rot2":
-            return {"k": "g", "g": draw(st.sampled_from(ROT2)),
+            return {"k": "g", "g": draw(st.sampled_from(
+                ["CRz"] if gateset == "tk" else ROT2)),
                     "a": [draw(_phases())]}, draw(st.sampled_from(adj_q))
         if kind == "controlled":
-            inner = {"k": "g", "g": draw(st.sampled_from(["X", "Z", "H"]))}
+            inner = {"k": "g", "g": draw(st.sampled_from(
+                ["X", "Z", "H", "Y", "S"] if gateset == "tk"
+                else ["X", "Z", "H"]))}
             return {"k": "g", "g": "C", "a": [inner]},\
                 draw(st.sampled_from(adj_q))
         if kind == "swap":
@@ -342,7 +352,8 @@ def circuit_layer(scan, max_width, gateset="all", symbolic=False):
         if kind == "bits":
             n = draw(st.integers(1, min(2, room)))
             return {"k": "g", "g": "Bits", "a": draw(st.lists(
-                st.integers(0, 1), min_size=n, max_size=n))},\
+                st.integers(0, 0 if gateset == "tk" else 1), min_size=n,
+                max_size=n))},\
                 draw(st.integers(0, len(scan)))
         if kind == "mixed":
             t = draw(st.sampled_from(["bit", "qubit"]))
@@ -395,8 +406,11 @@ def circuit_layer(scan, max_width, gateset="all", symbolic=False):
                 draw(st.sampled_from(["p", "q"])), n_in, n_out, vals]}
             return b, off
         re, im = draw(st.integers(-2, 2)), draw(st.integers(-2, 2))
-        return {"k": "g", "g": "scalar", "a": [re, im],
-                "mixed": gateset != "pure" and draw(st.booleans())},\
+        if gateset != "pure" and draw(st.booleans()):
+            # a mixed scalar is a (non-negative real) weight
+            return {"k": "g", "g": "scalar", "a": [abs(re) + abs(im) / 2, 0],
+                    "mixed": True}, draw(st.integers(0, len(scan)))
+        return {"k": "g", "g": "scalar", "a": [re, im], "mixed": False},\
             draw(st.integers(0, len(scan)))
     return strat()
 
